@@ -2,6 +2,8 @@
 
 spec/Containers.tla       criteria denotations, duplicate scan, reverse popping, grouping, entry-path decision table
 spec/ContainersTrace.tla  verdicts on observed filter / group / entry operations
+spec/ContainerSM.tla      the container as a mutable sequence under sequences of calls (x, a derived container y, a plain list z)
+spec/ContainerSMTrace.tla every call of every history: observed lists before / after against the model's transition
 """
 from .. import core
 
@@ -39,6 +41,125 @@ def filter_case(cid, lst, op, container, rng):
         if op["method"] == default and rng.random() < 0.5:
             args["use_default"] = True
     return {"id": cid, "kind": "c18_filter", "abs": {"kind": "filter", "lst": lst, "op": op}, "args": args}
+
+
+SM_CONSTS = {"MaxOps": 1, "Good": {1, 2, 3}, "MaxIter": 3, "Fault": "none", "EmitCases": False}
+SM_BAD = {"TractList": ["trs", "str", "int", "none", "list", "plss"], "TRSList": ["int", "none", "float", "list", "plss"]}
+
+
+def sm_op(name, tgt="x", i=0, e=0, it=()):
+    return {"name": name, "tgt": tgt, "i": i, "e": e, "it": list(it)}
+
+
+def sm_dress(ctx, ops, container):
+    """add what the model leaves open: how an iterable is handed over, which refused object stands for 0, in which
+    acceptable form an element is supplied to a TRSList"""
+    out = []
+    for o in ops:
+        o = dict(o, it=list(o["it"]))
+        o["form"] = ctx.rng.choice(["list", "tuple", "generator", "container"])
+        o["bad"] = ctx.rng.choice(SM_BAD[container])
+        o["gform"] = ctx.rng.choice(["trs", "str", "tract"])
+        out.append(o)
+    return out
+
+
+def sm_random_history(ctx, n):
+    good = [1, 2, 3]
+    def it(maxlen=3, bad_p=0.15):
+        return [0 if ctx.rng.random() < bad_p else ctx.rng.choice(good) for _ in range(ctx.rng.randint(0, maxlen))]
+    ops = [sm_op("new", it=it(3, 0.03))]
+    for _ in range(n):
+        r = ctx.rng.random()
+        if r < 0.3:
+            ops.append(sm_op(ctx.rng.choice(["extend", "iadd", "add"]), it=it()))
+        elif r < 0.4:
+            ops.append(sm_op("append", e=ctx.rng.choice(good + [0])))
+        elif r < 0.5:
+            ops.append(sm_op("insert", i=ctx.rng.randint(-4, 4), e=ctx.rng.choice(good + good + [0])))
+        elif r < 0.58:
+            ops.append(sm_op("setitem", i=ctx.rng.randint(-3, 3), e=ctx.rng.choice(good + good + [0])))
+        elif r < 0.66:
+            ops.append(sm_op("pop", i=ctx.rng.choice([-1, -1, 0, 1, 2, 5, -2])))
+        elif r < 0.74:
+            ops.append(sm_op(ctx.rng.choice(["imul", "mul"]), i=ctx.rng.randint(0, 2)))
+        elif r < 0.9:
+            ops.append(sm_op(ctx.rng.choice(["extend_str", "extend_self", "iadd_self", "extend_y", "reverse", "copy", "tolist",
+                                             "eq_y", "filter_drop", "filter_keep"])))
+        elif r < 0.93:
+            ops.append(sm_op("slice", i=ctx.rng.randint(0, 2)))
+        else:
+            tgt = ctx.rng.choice(["y", "z"])
+            ops.append(ctx.rng.choice([sm_op("append", tgt, e=ctx.rng.choice(good)), sm_op("pop", tgt, i=-1)]
+                                      + ([sm_op("reverse", "y")] if tgt == "y" else [])))
+    return ops
+
+
+def check_sm(ctx, cases):
+    obs = ctx.impl_map("c18_sm", cases, chunksize=20)
+    events, by_id = [], {}
+    for c in cases:
+        o = obs.get(c["id"])
+        if o is None:
+            continue
+        by_id[c["id"]] = c
+        events += [{k: v for k, v in ev.items() if k != "exc_msg"} for ev in o["events"]]
+        ctx.nontrivial.add(core.json.dumps(["sm", c["args"]["container"], [(x["name"], x["tgt"], x["i"], x["e"], x["it"])
+                                                                             for x in c["args"]["ops"]]]))
+    fails, drifts = ctx.validate("ContainerSMTrace", events, SM_CONSTS)
+    seen = set()
+    for eid, clause, *_ in fails:
+        cid, _, seq = eid.rpartition(".")
+        if cid in seen:
+            continue
+        seen.add(cid)
+        ev = [e for e in obs[cid]["events"] if e["id"] == eid]
+        ctx.violation(by_id[cid], clause, {"at_call": int(seq), "event": ev[0] if ev else None})
+    if drifts:
+        ctx.add_drift(len(drifts), {"container_sm": [list(d) for d in ctx.last_drift_details[:5]]})
+    for c in cases[:2]:
+        ctx.sample({"container": c["args"]["container"], "calls": [(x["name"], x["tgt"], x["i"], x["e"], x["it"]) for x in c["args"]["ops"]],
+                    "observed": [(e["post"], e["exc"]) for e in obs.get(c["id"], {"events": []})["events"]]})
+    return fails
+
+
+def run_sm(ctx):
+    thorough = ctx.tier == "thorough"
+    props = ["Atomic", "Independent", "EntryKeepsAll", "Lengths"]
+    base = {"MaxOps": 3 if thorough else 2, "Good": {1, 2}, "MaxIter": 2, "Fault": "none", "EmitCases": False}
+    ctx.tlc("ContainerSM", base, invariants=["OnlyGood"], properties=props)
+    ctx.tlc("ContainerSM", dict(base, MaxOps=2, MaxIter=1), invariants=["OnlyGood"], properties=props, coverage=True, count=False)
+    ctx.require_actions(["CallOnX", "CallOnY", "CallOnZ"])
+    for fault, prop in (("copy_shares", "Independent"), ("tolist_shares", "Independent"), ("extend_partial", "Atomic")):
+        ctx.tlc("ContainerSM", dict(base, MaxOps=3 if prop == "Independent" else 1, MaxIter=1 if prop == "Independent" else 2, Fault=fault),
+                invariants=["OnlyGood"], properties=props, expect_violation=fault, count=False)
+    cases = []
+    # spec -> code: every behaviour with one call, all (thorough: a sample of all) with two, and simulated longer ones
+    res = ctx.tlc("ContainerSM", dict(base, MaxOps=1, EmitCases=True), invariants=["EmitCase"], workers=1, count=False)
+    hist = list(res.cases)
+    if thorough:
+        res2 = ctx.tlc("ContainerSM", dict(base, MaxOps=2, EmitCases=True), invariants=["EmitCase"], workers=1, count=False)
+        hist += [c for c in res2.cases if ctx.rng.random() < 0.25]
+    sim = ctx.tlc("ContainerSM", dict(base, MaxOps=8, Good={1, 2, 3}, EmitCases=True), invariants=["EmitCase"], workers=1,
+                  count=False, simulate="num=%d" % (3000 if thorough else 300), depth=10)
+    seen = set()
+    for c in sim.cases:
+        key = core.json.dumps(c, sort_keys=True)
+        if key not in seen:
+            seen.add(key)
+            hist.append(c)
+    ctx.notes["container_sm_simulated_behaviours"] = len(seen)
+    if not hist or not seen:
+        raise core.MachineryFailure("ContainerSM emitted no behaviours")
+    for i, c in enumerate(hist):
+        cont = ctx.rng.choice(["TractList", "TRSList"])
+        cases.append({"id": "s%d" % i, "kind": "c18_sm", "abs": {}, "args": {"container": cont, "ops": sm_dress(ctx, c["ops"], cont)}})
+    # code -> spec: random histories with indexes and iterables beyond the model's bounds
+    for n in range(4000 if thorough else 400):
+        cont = ctx.rng.choice(["TractList", "TRSList"])
+        cases.append({"id": "q%d" % n, "kind": "c18_sm", "abs": {},
+                      "args": {"container": cont, "ops": sm_dress(ctx, sm_random_history(ctx, ctx.rng.randint(2, 10)), cont)}})
+    check_sm(ctx, cases)
 
 
 def check(ctx, cases):
@@ -153,18 +274,23 @@ def run(ctx):
                                            ["nested_iter", "generator"] if path == "from_multiple" else []))}})
                 k += 1
     check(ctx, cases)
+    run_sm(ctx)
     ctx.rule = ("filter cases = every (list up to %d elements over 11 shapes incl. numbers 0, repeated instances, equal TRS, error / undefined "
                 "components, parsed / unparsed) x (4 predicates, 16 filter_errors flag sets, 4 duplicate methods) x drop of "
                 "spec/Containers.tla, on TractList / TRSList / PLSSDesc wrappers; + random lists of 2..8 elements for filters, "
                 "group_by / group_by_nested (1..3 attributes) + unpack_group; entry paths: 8 paths x 2 containers x 11 element "
-                "kinds alone and in mixtures, handed over as list / tuple / generator (from_multiple also as one nested one-shot iterator); non-trivial = distinct case" % (3 if thorough else 2))
+                "kinds alone and in mixtures, handed over as list / tuple / generator (from_multiple also as one nested one-shot iterator); "
+                "call sequences = every behaviour of spec/ContainerSM.tla with one call (thorough: + 25%% of those with two), TLC-simulated "
+                "behaviours of 8 calls and seeded random histories of 2..10 calls (append / extend / += / + / *= / * / insert / "
+                "__setitem__ / pop / reverse / copy / to_standard_list / slicing / filter / ==, refused objects included), every call "
+                "one validated event; non-trivial = distinct case" % (3 if thorough else 2))
     ctx.assumptions += ["elements are identified by object identity (repeated instances matched left to right)",
                         "group keys are compared through a fixed value table (twp/sec strings -> symbols)"]
 
 
 def replay(ctx, payload):
     case = payload["case"]
-    fails = check(ctx, [case])
+    fails = check_sm(ctx, [case]) if case.get("kind") == "c18_sm" else check(ctx, [case])
     if fails:
         print("VIOLATION property=C18 replay=(replayed) clause=%s" % fails[0][1])
         return 1
